@@ -42,7 +42,12 @@ def check(run, M, tier):
                    "and only if _apply passes no normalisation/shape override")
     run.rule("N3", "NUFFT Toeplitz path: chain is an adjoint palindrome around Multiply(psf); psf = toeplitz_psf(self.coord, self.ishape, self.oversamp, self.width); "
                    "R = Resize(psf.shape, self.ishape); FFT over the last ndim axes; the non-Toeplitz path is A^H A")
+    run.rule("N3b", "toeplitz_psf (anchor sigpy/fourier.py:219-263) evaluates nufft_adjoint(nufft(delta)) on the 2x grid of the *whole* input shape with one "
+                    "(new_coord, oversamp, width), then the unnormalised FFT over the last ndim axes times 2^ndim (same comparison as C06/U4)")
     run.rule("N4", "no Linop class defines __iadd__/__imul__, so `AHA += ...` in the apps rebinds instead of mutating the cached A.N")
+    from .c06 import REF_PSF, _cmp
+    from ..linopdesc import havoc_loop as _hl
+    _cmp(run, M, "N3b", "sigpy.fourier.toeplitz_psf", REF_PSF, loop_hook=_hl)
     alg = LinAlg(M)
     base = M.cls("sigpy.linop.Linop")
 
